@@ -428,6 +428,29 @@ pub fn run(ctx: &Ctx) -> Report {
             }
         });
         acc.into_report(&mut rep, "all_forms_over_strings_of_every_length_1_to_600");
+        // every byte value at every position of the 7-byte window, in three contexts
+        let acc = par_shards(256, |b, acc| {
+            for ctx in [[0u8; 7], [0xff; 7], [0x12, 0x34, 0x56, 0x78, 0x9a, 0xbc, 0xde]] {
+                for pos in 0..7 {
+                    let mut w = ctx.to_vec();
+                    w[pos] = b as u8;
+                    // with and without bytes before the window
+                    for prefix in [&[][..], &[0xeeu8; 5][..]] {
+                        let mut s = prefix.to_vec();
+                        s.extend_from_slice(&w);
+                        acc.evaluations += 1;
+                        acc.nontrivial += 1;
+                        if let Err(e) = roll_replay(&s) {
+                            acc.violation("roll byte value".into(), e, case("roll", &s));
+                        }
+                        if let Err(e) = fnv_replay(&s) {
+                            acc.violation("fnv byte value".into(), e, case("fnv", &s));
+                        }
+                    }
+                }
+            }
+        });
+        acc.into_report(&mut rep, "every_byte_value_at_every_window_position");
     }
 
     // ---- rolling hash: closure over an alphabet
